@@ -110,6 +110,10 @@ fn case_strategy_with(base: u64, prec: BoxedStrategy<u32>) -> impl Strategy<Valu
                             x = fl_from(&v, -pu);
                         }
                         2 => x = fl_from(&BigInt::one(), (sa % 2001) as i64 - 1000), // pure power of the base
+                        // every fourth of the tiny / huge cases far beyond: |log2 x| up to 2^40 in base 2
+                        // (the scaling estimate of ln is an f32, exact only below 2^24)
+                        3 if sa % 4 == 0 && base == 2 => x = place(x, -((1i64 << (20 + (sa >> 8) % 21)) + ((sa >> 16) % 1000) as i64)),
+                        4 if sa % 4 == 0 && base == 2 => x = place(x, (1i64 << (20 + (sa >> 8) % 21)) + ((sa >> 16) % 1000) as i64),
                         3 => x = place(x, -1000 + (sa % 50) as i64),
                         4 => x = place(x, 1000 - (sa % 50) as i64),
                         5 => x = place(x, 0),
